@@ -22,6 +22,7 @@ import vlib
 import c10_lib as L
 
 MODES = ("file", "all", "none")
+BIG_ROWS = 150000  # ~6 MB of pages, three times SQLite's default 2 MB page cache
 SYSCALLS = ("pwrite64", "fsync", "fdatasync", "ftruncate", "unlink")
 
 
@@ -75,10 +76,10 @@ def plan(ctx):
     (building the start state) + whether the strace injector is used on it."""
     cfgs = []
 
-    def add(shape, modes=MODES, prefix=(), params="", strace=False, tag="", ref_only=False):
+    def add(shape, modes=MODES, prefix=(), params="", strace=False, tag="", ref_only=False, only=None):
         for m in modes:
             cfgs.append({"shape": shape, "global": m, "params": params, "prefix": [dict(k) for k in prefix], "strace": strace,
-                         "tag": tag or "fresh", "ref_only": ref_only})
+                         "tag": tag or "fresh", "ref_only": ref_only, "only": only})
 
     a = L.make_shape("A", [3, 2], kinds=["DID", "II"])
     # single-statement files (first / middle / last; a lone INSERT is the only shape in which "the statement and
@@ -92,9 +93,21 @@ def plan(ctx):
     ks = [L.make_shape("K1", [3], kinds=["DII"], checkpoints=[0]),
           L.make_shape("K2", [2, 2, 1], kinds=["DI", "II", "I"], checkpoints=[0]),
           L.make_shape("K3", [2, 1, 1, 3, 1], kinds=["DI", "D", "I", "DII", "I"], checkpoints=[1, 3])]
+    # statement TEXTS varied so that the running hash recorded for a statement (partial_hashes, "h1:<base64>") starts
+    # with the characters of the "h1:" prefix itself, with '+', '/', a digit, an upper- and a lower-case letter: a resumed
+    # file compares these hashes, so what they look like must not matter (none-mode: the only mode that resumes)
+    hs = L.make_shape("H", [4, 5, 4], kinds=["DIII", "IIIII", "IIII"],
+                      salts={(0, 1): "h", (0, 2): "1", (1, 0): "h1", (1, 1): "+", (1, 2): "/", (1, 3): "7",
+                             (2, 0): "H", (2, 1): "a", (2, 2): "1h"})
+    # a transaction that dirties far more pages than SQLite's page cache holds (pages are spilled into the database
+    # file before COMMIT; only the rollback journal can undo them after a kill)
+    bg = L.make_shape("BG", [4, 3], kinds=["DBFI", "IUI"], big=BIG_ROWS)
     if ctx.quick():
-        for k in ks:
-            add(k, tag="checkpoint")
+        add(hs, modes=("none",), tag="hash-prefix")
+        add(bg, modes=("file", "all"), tag="big-tx", only="after-big")
+        add(ks[0], tag="checkpoint")
+        add(ks[1], modes=("none", "file"), tag="checkpoint")
+        add(ks[2], modes=("none", "all"), tag="checkpoint")
         add(a)
         add(random_shape(ctx, "Q", 3, 3, "quick"))
         add(s1, modes=("file", "all"))
@@ -108,6 +121,17 @@ def plan(ctx):
         add(L.make_shape("DfM", [2, 1, 2], directives={1: "file"}), modes=("none",), tag="directive")
         add(a, modes=("file",), params="_journal_mode=WAL", tag="wal")
         return cfgs
+    add(hs, modes=("none",), tag="hash-prefix")
+    alphabet = "ABCDEFGHIJKLMNOPQRSTUVWXYZabcdefghijklmnopqrstuvwxyz0123456789+/"
+    for i in range(6):
+        rnd = ctx.rand("salted", i)
+        salts = {(fi, si): rnd.choice([rnd.choice(alphabet), rnd.choice("h1") + rnd.choice("h1"), rnd.choice("h1")])
+                 for fi in range(2) for si in range(4) if (fi, si) != (0, 0)}
+        add(L.make_shape("H%d" % i, [5, 5], kinds=["DIIII", "IIIII"], salts=salts), modes=("none",), tag="hash-prefix")
+    add(L.make_shape("Hd", [2, 4], kinds=["DI", "IIII"], salts={(1, 0): "1", (1, 1): "h", (1, 2): "hh"}, directives={1: "none"}),
+        modes=("file",), tag="hash-prefix")
+    add(bg, tag="big-tx")
+    add(L.make_shape("BG2", [5], kinds=["DBFUI"], big=BIG_ROWS), modes=("file", "all"), tag="big-tx")
     for k in ks:
         add(k, tag="checkpoint", strace=(k["name"] == "K2"))
     add(L.make_shape("K4", [1, 4, 2], kinds=["I", "DIDI", "II"], checkpoints=[1], directives={1: "none"}), modes=("file", "none"), tag="checkpoint")
@@ -184,7 +208,7 @@ class Runner:
             self.runs += 1
         trace = [ln.strip() for ln in open(tf)] if os.path.exists(tf) else []
         trace = [ln for ln in trace if re.fullmatch(r"[a-z.]+ \d+", ln)]
-        after = vlib.dump_db(db)
+        after = L.dump(db, case["shape"])
         # design C10 S: the advisory lock FILE of a killed process is not database state
         for lf in globmod.glob(os.path.join(d, "tmp", "*.lock")):
             os.remove(lf)
@@ -230,6 +254,28 @@ def count_syscalls(path):
         if m:
             out[m.group(1)] = out.get(m.group(1), 0) + 1
     return out
+
+
+def select_points(cfg, pts):
+    """All observed points, or (quick, big transaction) only the ones that matter for that shape: right after each
+    big statement, after the revision write that follows it, and before / after the commit that follows it."""
+    if cfg.get("only") != "after-big":
+        return pts
+    pend = L.pending_stmts(cfg["shape"], L.observe(cfg["shape"], None))
+    out = []
+    for k, (f, i) in enumerate(pend, 1):
+        if not f["stmts"][i]["kind"].startswith("big-"):
+            continue
+        want = "stmt.after %d" % k
+        if want not in pts:
+            continue
+        at = pts.index(want)
+        out.append(want)
+        for name in ("rev.after ", "commit.before ", "commit.after "):
+            nxt = next((p for p in pts[at + 1:] if p.startswith(name)), None)
+            if nxt:
+                out.append(nxt)
+    return list(dict.fromkeys(out))
 
 
 def case_of(cfg, kill):
@@ -323,7 +369,7 @@ def main():
         m = cfg["global"]
         stats["points"][m] = stats["points"].get(m, 0) + len(set(ref["trace"]))
         stats["names"].setdefault(m, set()).update(p.split()[0] for p in ref["trace"])
-        for p in dict.fromkeys(ref["trace"]):
+        for p in select_points(cfg, list(dict.fromkeys(ref["trace"]))):
             cases.append((cfg, {"via": "hook", "at": p.replace(" ", ":")}))
         if cfg["strace"]:
             for sc in SYSCALLS:
@@ -360,6 +406,11 @@ def main():
         ctx.count("kills:%s:%s" % (cfg["global"], kill["at"].split(":")[0] if hook else "strace-" + kill["sys"]))
         ctx.count("kills-by-kind:" + cfg["tag"])
         shape = cfg["shape"]
+        with ctx.lock:
+            for st in vd.crash_states:
+                for v, hl in st["hashes"].items():
+                    for i, h in enumerate(hl):
+                        cfg.setdefault("seen_hashes", {})[(v, i)] = h
         cs = L.brief(shape, vd.crash_states[-1]) if vd.crash_states else None
         fs = L.brief(shape, vd.final_state) if vd.final_state is not None else None
         with ctx.lock:
@@ -396,6 +447,15 @@ def main():
     cases.sort(key=lambda it: (vlib.digest(ctx.seed, cfg_name(it[0]), L.kill_name(it[1]))))
     ctx.par(cases, one)
 
+    # the salted statements must really have produced the hashes they were built for (observed in revision rows)
+    for cfg in cfgs:
+        for f in cfg["shape"]["files"]:
+            for i, st in enumerate(f["stmts"]):
+                if st.get("hash_starts") and cfg.get("ref_clean") and not cfg["ref_only"]:
+                    got = cfg.get("seen_hashes", {}).get((f["version"], i))
+                    ctx.count("salted-hash-prefixes-confirmed-in-revision-rows" if got and got.startswith(st["hash_starts"]) else "salted-hash-prefixes-not-confirmed")
+                    if got is not None and not got.startswith(st["hash_starts"]):
+                        broken.append("%s: partial hash of %s is %s, built to start with %r" % (cfg_name(cfg), st["id"], got, st["hash_starts"]))
     if stats["planned"] and stats["killed"] < 0.9 * stats["planned"]:
         broken.append("only %d of %d hook kills were delivered" % (stats["killed"], stats["planned"]))
     if not stats["planned"] and not ctx.violations():
